@@ -2,6 +2,7 @@ import H2V.Props.C10Tables
 import H2V.Lemmas.HpackEnc
 import H2V.Lemmas.Huffman
 import H2V.Lemmas.HpackDec
+import H2V.Props.C11
 /-
   C10 — HPACK encoder and decoder stay in sync.  Property theorems only.
 -/
@@ -70,6 +71,61 @@ theorem own_decoder_reads_back_the_submitted_fields
     subst hblock
     exact ⟨by simpa using hf, rfl⟩
 
+/-- the reference monitor over a sequence of (submitted fields, emitted block) pairs -/
+def monBlocks (m : Spec.HpackSync.Mon) : List (List Spec.Hpack.Field × Bytes) → Option Spec.HpackSync.Mon
+  | [] => some m
+  | (fs, b) :: rest =>
+    match m.block fs b with
+    | .ok m' => monBlocks m' rest
+    | .error _ => none
+
+/-- **lock-step over whole histories, blocks cut into CONTINUATION fragments.** For ANY sequence of
+    emitted blocks that the reference monitor accepts for the submitted field lists (what
+    `roundtrip_history` gives), each cut into a HEADERS fragment and any CONTINUATION fragments:
+    if h2's own decoder — started from a state abstracting to the reference's, fed fragment by
+    fragment, carrying its table from block to block — accepts them all, it hands out exactly the
+    submitted field lists, in order, and ends with the reference's dynamic table. -/
+theorem own_decoder_lockstep_history
+    (blocks : List (List Spec.Hpack.Field × Bytes × List Bytes))
+    (m m' : Spec.HpackSync.Mon) (d : Decoder)
+    (habs : Lemmas.HpackDec.abs d = m.st)
+    (hi : Lemmas.HpackDec.Table.Inv d.table) (hc : d.continuing = false)
+    (hv : ∀ b ∈ blocks, Bytes.Valid (b.2.1 ++ b.2.2.flatten))
+    (hm : monBlocks m (blocks.map fun b => (b.1, b.2.1 ++ b.2.2.flatten)) = some m')
+    (fs : List (List Header)) (d' : Decoder)
+    (hd : C11.blocksOk d (blocks.map fun b => (b.2.1, b.2.2)) = some (fs, d')) :
+    fs = blocks.map (·.1) ∧ Lemmas.HpackDec.abs d' = m'.st := by
+  induction blocks generalizing m d fs d' with
+  | nil =>
+    simp only [List.map_nil, monBlocks, C11.blocksOk, Option.some.injEq, Prod.mk.injEq] at hm hd
+    obtain ⟨rfl, rfl⟩ := hd
+    subst hm
+    exact ⟨rfl, habs⟩
+  | cons b rest ih =>
+    obtain ⟨fields, a, frags⟩ := b
+    simp only [List.map_cons, monBlocks, C11.blocksOk] at hm hd
+    split at hm
+    · rename_i m1 hb
+      split at hd
+      · rename_i hr
+        have hvb : Bytes.Valid (a ++ frags.flatten) := hv (fields, a, frags) (by simp)
+        have hsplit := Lemmas.HpackDec.split_invariance_list d a frags
+        rw [← hsplit] at hr hd
+        obtain ⟨hf, ha⟩ := own_decoder_reads_back_the_submitted_fields m m1 fields _ hb d habs hi hvb hc hr
+        have hi' := Lemmas.HpackDec.decode_preserves_inv d (a ++ frags.flatten) hi
+        have hc' := Lemmas.HpackDec.decode_continuing_false d (a ++ frags.flatten)
+        cases hrest : C11.blocksOk (d.decode (a ++ frags.flatten)).dec (rest.map fun b => (b.2.1, b.2.2)) with
+        | none => rw [hrest] at hd; simp at hd
+        | some r =>
+          obtain ⟨fs', d''⟩ := r
+          rw [hrest] at hd
+          simp only [Option.map_some, Option.some.injEq, Prod.mk.injEq] at hd
+          obtain ⟨rfl, rfl⟩ := hd
+          obtain ⟨h1, h2⟩ := ih m1 _ ha hi' hc' (fun b hb => hv b (by simp [hb])) hm fs' d'' hrest
+          exact ⟨by rw [hf, h1]; rfl, h2⟩
+      · cases hd
+    · cases hm
+
 -- non-vacuity: a concrete history (shrink to 100, two blocks with a repeated and a nameless field) is well-formed
 example : WF [.setMax 100, .block [⟨([120, 45, 97], [49]), false, false⟩, ⟨([120, 45, 97], [50]), false, true⟩],
               .block [⟨([120, 45, 97], [49]), false, false⟩]] := by decide
@@ -83,5 +139,15 @@ example : (match (Spec.HpackSync.Mon.init 4096).block ((Decoder.new 4096).decode
               [130, 64, 1, 97, 1, 98] with | .ok _ => true | .error _ => false) = true ∧
     (match ((Decoder.new 4096).decode [130, 64, 1, 97, 1, 98]).result with
       | .ok _ => true | .error _ => false) = true := by decide +kernel
+
+-- non-vacuity of the lock-step theorem: two blocks (the first cut inside the literal that enters the
+-- table, the second referring to the new entry) are accepted by the monitor and by the decoder mirror
+open H2V.Model.Hpack in
+example :
+    (monBlocks (Spec.HpackSync.Mon.init 4096)
+      [([([58, 109, 101, 116, 104, 111, 100], [71, 69, 84]), ([97], [98])], [130, 64, 1, 97, 1, 98]),
+       ([([97], [98])], [190])]).isSome = true ∧
+    (C11.blocksOk (Decoder.new 4096) [([130, 64, 1], [[97], [1, 98]]), ([190], [[]])]).isSome = true := by
+  decide +kernel
 
 end H2V.Props.C10
